@@ -4,7 +4,7 @@ import gen_flw as g
 CLAIM = ('Proved in Coq for the model (Numbers naming, size criterion): the files left after stop are the greedy partition of '
          'the written records and chunks, a function of the operation sequence alone - hence identical for Direct and for every '
          'buffer capacity (C15_modes_numbers, a corollary of C08_partition_numbers), and the stream is exactly the concatenation '
-         'of the chunks (C15_raw_numbers, from C01). For the other namings, the age criteria and the asynchronous mode the '
+         'of the chunks (C15_raw_numbers, from C01). For custom formats and the age criteria across buffer capacities the '
          'property is decided per explored history: the same operation sequence is run through Direct, BufferDontFlush(c) and '
          'Async{pool, message capacity} on the implementation and the three final directories must be identical (names and '
          "bytes), and equal to the model's; raw chunks include empty chunks, chunks without line ending, every single byte "
@@ -15,8 +15,16 @@ CLAIM = ('Proved in Coq for the model (Numbers naming, size criterion): the file
          'through exactly the same worlds as the synchronous run of the same history as long as that one returns normal results, '
          'observations equal up to the rotation flag, which the asynchronous caller never sees (C15_async_simulates_sync); for '
          'Numbers naming unconditionally: same worlds at every point, same final files across Direct / Buffered / Async '
-         '(C15_worlds_numbers_async, C15_modes_numbers_async, C15_raw_numbers_async, C15_async_observations). ')
-THEOREMS = ["C15_modes_numbers", "C15_raw_numbers", "C15_modes_numbers_async", "C15_raw_numbers_async", "C15_worlds_numbers_async", "C15_async_simulates_sync", "C15_async_observations"]
+         '(C15_worlds_numbers_async, C15_modes_numbers_async, C15_raw_numbers_async, C15_async_observations). THE OTHER NAMINGS '
+         '(proved): for NumbersDirect, TimestampsDirect and Timestamps naming with a size criterion two configurations that '
+         'differ only in the write mode - Direct, buffered with any capacity, asynchronous with any pool - leave the same '
+         'directory (same names, kinds and contents; for the time-stamp namings the names are computed as a function of limit, '
+         'start time and history: C15_modes_numbersdirect, C15_modes_timestampsdirect, C15_modes_timestamps, '
+         'C15_same_directory_*); in asynchronous mode stream, partition and observations are those of the synchronous run '
+         '(C15_raw_*_async, C15_partition_*_async, C15_async_observations_*, C15_worlds_timestampsdirect_async: identical worlds '
+         'for any criterion at the same capacity). Across different capacities the age criteria are not proved (the creation '
+         'time of the current file is not in the invariants): decided by the comparison runs. ')
+THEOREMS = ["C15_modes_numbers", "C15_raw_numbers", "C15_modes_numbers_async", "C15_raw_numbers_async", "C15_worlds_numbers_async", "C15_async_simulates_sync", "C15_async_observations", "C15_modes_numbersdirect", "C15_modes_timestampsdirect", "C15_modes_timestamps", "C15_raw_numbersdirect_async", "C15_partition_numbersdirect_async", "C15_raw_timestampsdirect_async", "C15_partition_timestampsdirect_async", "C15_raw_timestamps_async", "C15_partition_timestamps_async", "C15_async_observations_numbersdirect", "C15_async_observations_timestampsdirect", "C15_async_observations_timestamps", "C15_worlds_timestampsdirect_async", "C15_same_directory_numbersdirect", "C15_same_directory_timestampsdirect", "C15_same_directory_timestamps"]
 TRUSTED = ["modelled, not verified: BufWriter, crossbeam channel (FIFO), the buffer pool; the async writer thread is synchronised with the "
            "caller through the schedule-point hooks during the correspondence runs"]
 ASSUMPTIONS = ["single logging thread; with an age criterion the asynchronous mode reads the clock when the message is consumed - "
